@@ -136,3 +136,16 @@ Definition stdin_flag (args : list bool) : option bool :=
   | [true] => Some true
   | _ => if existsb (fun b => b) args then None (* "Cannot mix stdin flag with other inputs", exit 1 *) else Some false
   end.
+
+(* ---------- the two entry points of the library (crates/lib/src/core/linter/core.rs) *)
+Section Entry.
+  Variables src linted : Type.
+  (** [process_raw_file_for_config]: [false] = the scan for in-file configuration aborts ([panic!] in
+      [process_inline_config] on a line starting "-- sqlfluff": property C03) *)
+  Variable scan_ok : src -> bool.
+  (** [render_string] ; [parse_rendered] ; [lint_parsed] *)
+  Variable pipeline : src -> linted.
+  (** [lint_string] (stdin mode) scans, [lint_paths] (path and directory mode) does not *)
+  Definition lint_string_m (s : src) : option linted := if scan_ok s then Some (pipeline s) else None.
+  Definition lint_path_m (s : src) : option linted := Some (pipeline s).
+End Entry.
